@@ -33,6 +33,8 @@ mod c12_decode;
 mod c12_files;
 #[path = "../shared/c12_l2b.rs"]
 mod c12_l2b;
+#[path = "../shared/c12_prog.rs"]
+mod c12_prog;
 
 use c12_adv::{Delivery, fmt_script, parse_script};
 use c12_decode::{T, decode_b, decode_bs, decode_r, is_read_format};
@@ -991,6 +993,7 @@ fn generate(rng: &mut Rng, tier: &str, w: &mut CaseWriter) {
     }
     // ---- L2: whole-file readers composed from the primitives (fidxf, fqr, ...)
     c12_l2b::generate(rng, thorough, w);
+    c12_prog::generate(rng, thorough, w);
 }
 
 fn run(c: &Case) -> Obs {
@@ -1006,7 +1009,7 @@ fn run(c: &Case) -> Obs {
         "gffl" => run_gffl(c),
         "fseq" => run_fseq(c),
         "fidx" => run_fidx(c),
-        _ => c12_l2b::run(c).unwrap_or_else(|| Obs::ok("-", false)),
+        _ => c12_l2b::run(c).or_else(|| c12_prog::run(c)).unwrap_or_else(|| Obs::ok("-", false)),
     }
 }
 
